@@ -7306,12 +7306,13 @@ tsk_table_collection_individual_topological_sort(
         goto out;
     }
 
-    ret = tsk_individual_table_clear(individuals);
+    /* Sort first: a parent cycle is an error and must leave the table as it was */
+    ret = tsk_individual_table_topological_sort(&copy, traversal_order, NULL);
     if (ret != 0) {
         goto out;
     }
 
-    ret = tsk_individual_table_topological_sort(&copy, traversal_order, NULL);
+    ret = tsk_individual_table_clear(individuals);
     if (ret != 0) {
         goto out;
     }
